@@ -1,7 +1,9 @@
 #!/bin/bash
-# usage: coqshow.sh file.v LINE  -- compile up to LINE (exclusive) then Show the goal
+# usage: coqshow.sh file.v LINE [dir] [taillines] -- run up to LINE (exclusive) then Show
 f=$1; n=$2
 head -n $((n-1)) "$f" > /tmp/_show.v
 echo "Show. " >> /tmp/_show.v
 cd ${3:-.}
-coqtop -q -Q /verif/coq/Lib BBLib -Q . BBRun < /tmp/_show.v 2>&1 | grep -v "^Coq <\|coercion\|ambiguous" | tail -${4:-40}
+Q2="-Q . BBRun"; [ "$(pwd)" = /verif/coq/Lib ] && Q2=""; coqtop -q -Q /verif/coq/Lib BBLib $Q2 < /tmp/_show.v 2>&1 | grep -v "^Coq <\|coercion\|ambiguous" > /tmp/_show.out
+grep -n "Error" /tmp/_show.out | head -3
+tail -${4:-40} /tmp/_show.out
